@@ -127,9 +127,23 @@ let hist fuel (kbx : Sexp.t) (ops : Sexp.t list) : string * Sexp.t * Sexp.t =
    with Exit -> ());
   Buffer.contents buf, L (A "obs" :: List.rev !obs), L (A "spec" :: List.rev !specs)
 
+(* (timer OP...) on the model of time_out.rs (Model/Timer.v) *)
+let timer_history (ops : Sexp.t list) : Sexp.t =
+  let rec nat_of_int i = if i <= 0 then O else S (nat_of_int (i - 1)) in
+  let op_of = function
+    | L [A "start"] -> TStart | L [A "start-query"] -> TStartQuery
+    | L [A "fire"; A k] -> TFire (nat_of_int (int_of_string k))
+    | L [A "cancel"] -> TCancel | L [A "stop"] -> TStop | L [A "read"] -> TRead
+    | x -> bad ("timer op: " ^ Sexp.to_string x) in
+  let show (t : tstate) =
+    let st = (match t.tstat with Running -> "0" | Stopped -> "1" | Cancelled -> "2") in
+    L [A "st"; A (string_of_n t.tgen); A st; A (if st = "1" then "1" else "0")] in
+  L (A "tobs" :: List.map show (tobs tinit (List.map op_of ops)))
+
 let run_case (fuel : nat) (c : Sexp.t) : (string * Sexp.t * Sexp.t option) option =
   match c with
   | L (A "hist" :: kbx :: ops) ->
     let (o, r, sp) = hist fuel kbx ops in
     Some (o, r, Some sp)
+  | L (A "timer" :: ops) -> let m = timer_history ops in Some ("", m, Some m)
   | _ -> None
